@@ -226,4 +226,23 @@ theorem transformValue_check (T : Tables) (b : Bind) (st : TState) (ty lit : Val
     hty, Option.getD_some, hck, hlit]
   simp only [ite_self, hm]
 
+/-- the same for ANY bind kind, in terms of `current in bind` / `current == bind.u` (`Bind.matches`) -/
+theorem transformValue_check_gen (T : Tables) (b : Bind) (st : TState) (ty lit : Val)
+    (hen : Enabled T st.ctx "auto_value".toList) (hopt : Dict.get? st.attrs "auto_value".toList = none)
+    (hty : Dict.get? st.attrs sType = some ty)
+    (hck : (ty.eqStr "radio".toList || ty.eqStr "checkbox".toList) = true)
+    (hlit : Dict.get? st.attrs sValue = some lit) (m : Bool) (hm : b.matches T (some lit) = .ok m)
+    (htag : T.autoTag sValue sInput = true) :
+    transformValue T sInput (some b) st =
+      .ok { st with attrs := toggleAttr st.attrs sChecked m } := by
+  have hp := hen st.attrs hopt
+  rw [erase_absent _ _ hopt] at hp
+  unfold transformValue
+  simp only [bind, Except.bind, pure, Except.pure]
+  rw [hp]
+  simp only [Bool.not_true, Bool.false_eq_true, ↓reduceIte, htag, Bool.not_false, Bool.and_false,
+    hty, Option.getD_some, hck, hlit]
+  simp only [ite_self, hm]
+
+
 end Flatland.C12.Proofs
